@@ -262,10 +262,22 @@ class SafeDom(UDom):
         m = strip_pre(n)
         if isinstance(m, dict) and m.get("k") == "call" and (m.get("fn") or "").startswith("check_consistency"):
             return False     # returns the Allreduce'd status (checked by R2.safe on that helper itself)
+        if isinstance(m, dict) and m.get("k") == "call" and m.get("fn") is None:
+            from callgraph import slot_of_call
+            if slot_of_call(m) in ("create", "open"):
+                # the driver's collective create / open agree on their status themselves (root's file test is broadcast,
+                # MPI_File_open is collective, the header read agrees on its status): assumption, recorded in the evidence
+                return False
         return super().varying(n, st)
 
     def on_assign(self, key, lhs, rhs, val, st, elem):
         st = super().on_assign(key, lhs, rhs, val, st, elem)
+        if key is not None:
+            # `err` was the send buffer of an earlier MPI_MIN reduction and now receives something else: "the reduced
+            # status is 0, hence err was 0" no longer says anything about its new value
+            for k, v in list(st.items()):
+                if isinstance(k, tuple) and k and k[0] == "$minof" and v == key and k[1] != key:
+                    st = st.set(k, None)
         if key is not None and key[0] == "v" and st.has("$pc") and st.get("$pc"):
             st = self.set_taint(st, key, True)
         r = strip_pre(rhs) if rhs is not None else None
@@ -377,6 +389,8 @@ def check_safe(ctx, prog):
                      "codes" % (show(elem)[:60], elem.get("l")), fn=fn, line=elem.get("l", fn.line))
         else:
             ctx.ok("R2.safe", fn.name, "every non-zero return after a collective is Allreduce/Bcast-derived")
+    ctx.assume("R2.safe: the status returned by the driver's collective create / open is the same on every process (the driver "
+               "agrees on it itself)")
     ctx.min_instances("R2.safe", 12)
 
 
